@@ -27,8 +27,9 @@ P_FIELD = ("TYPE\n  R1 : STRUCT\n    g : BOOL;\n  END_STRUCT;\n  R2 : STRUCT\n  
 P_INHERIT = ("FUNCTION_BLOCK Base\nVAR PUBLIC\n  cnt : DINT;\nEND_VAR\nMETHOD PUBLIC Advance : DINT\ncnt := cnt + DINT#1;\nAdvance := cnt;\nEND_METHOD\nEND_FUNCTION_BLOCK\n"
              "FUNCTION_BLOCK Derived EXTENDS Base\nMETHOD PUBLIC OVERRIDE Advance : DINT\nAdvance := SUPER.Advance() + cnt;\nEND_METHOD\nEND_FUNCTION_BLOCK\n"
              "PROGRAM Main\nVAR\n  d : Derived;\n  i : DINT;\nEND_VAR\ni := d.Advance();\nEND_PROGRAM\n", "Advance : DINT\ncnt", "Forward")
+# P_FIELD: repaired in /repo (da34f69); the probe stays and must not reproduce
 PROBES = [("parameter-rename-misses-named-arguments", P_PARAM), ("typed-literal-references-missed", P_ENUM),
-          ("nested-field-references-missed", P_FIELD), ("inherited-member-rename", P_INHERIT)]
+          ("nested-field-references-fixed", P_FIELD), ("inherited-member-rename", P_INHERIT)]
 
 
 def rename_probe(binary, name, probe):
@@ -73,7 +74,7 @@ def rename_sweep(tier, sd):
         if r not in ("refused", "e1 d1 b1"):
             bad.append((head, r))
     cov = {"programs": kept, "renames": sum(counts.values()), "outcomes": counts,
-           "note": "testing, not proof: identifiers of feature-sweep programs renamed to fresh and to colliding names; oracles: edits well-formed (e), no new error diagnostics (d), same run-time behaviour (b); parameters, enumeration types / values and struct fields are not renamed here (recorded findings, probed separately)"}
+           "note": "testing, not proof: identifiers of feature-sweep programs renamed to fresh and to colliding names; oracles: edits well-formed (e), no new error diagnostics (d), same run-time behaviour (b); parameters and enumeration types / values are not renamed here (recorded findings, probed separately)"}
     return bad, cov, srcdir, rn
 
 
@@ -147,7 +148,7 @@ def check(tier):
         "accepted": len(acc), "refused": len(good) - len(acc), "model_impl_disagreements": len(diffs), "binding_changes": len(capture), "flag_failures": len(broken),
         "samples": [r["line"][:200] for r in good[:2]],
     }
-    assumptions = ["two-level scoping (project level / POU locals); methods, namespaces, USING, inheritance, struct fields, types and multi-declaration renames are outside the model and its generator; they are exercised by the rename sweep (testing, not proof) except for the four recorded findings",
+    assumptions = ["two-level scoping (project level / POU locals); methods, namespaces, USING, inheritance, struct fields, types and multi-declaration renames are outside the model and its generator; they are exercised by the rename sweep (testing, not proof) except for the three recorded findings",
                    "run-time behaviour is compared only for consistently spelled projects: the runtime looks variables up case-sensitively (known finding of C01)",
                    "a refused rename-back is not counted as a failure (the conservative check refuses names that would newly shadow a project-level name)"]
     return vlib.finish(PROP, tier, "proof", cov, assumptions, t0, violations, known_lines)
